@@ -38,4 +38,9 @@ fn main() {
         writeln!(f, "{l}").unwrap();
     }
     eprintln!("recorded {} runs, {} events", run, lines.len());
+    let errs = verif_harness::session::HARNESS_ERRORS.with(|h| h.borrow().clone());
+    if !errs.is_empty() {
+        eprintln!("HARNESS-ERROR ({}): {}", errs.len(), errs[0]);
+        std::process::exit(3);
+    }
 }
